@@ -20,6 +20,8 @@ TRANSPARENT = {
     "std::pin::Pin::new_unchecked", "std::pin::Pin::new",
     "std::vec::Vec::as_slice", "std::vec::Vec::as_mut_slice",
     "std::ops::Try::branch",
+    # copies of a slice / borrowed value (content-preserving)
+    "bitvec::macros::internal::core::slice::to_vec", "std::slice::to_vec", "std::borrow::ToOwned::to_owned",
 }
 
 
@@ -126,6 +128,11 @@ def cond_of(body, bb, crates=()):
         c.adt = r[2].get("adt")
         c.src_place = r[2]["p"]
         c.src = body.origin({"k": "copy", "p": r[2]["p"]})
+        if body.d.get("inl_rets") and c.src.get("k") == "call" and c.src["t"].get("f") and c.src["t"]["f"]["name"] == "branch":
+            # `?` on the result of a virtually inlined helper: the tested value is what the helper wrapped in Ok(..)
+            d2, ch = origin_thru(body, {"k": "copy", "p": r[2]["p"]}, transparent={"std::ops::Try::branch"})
+            if ch and not any(isinstance(e, dict) and e.get("as") == "Continue" for e in d2.get("proj", [])):
+                c.src = d2
         vm = variant_map(crates, c.adt) if c.adt else None
         if vm:
             listed = {v: tb for v, tb in t["targets"]}
@@ -216,9 +223,15 @@ def origin_thru(body, op, transparent=TRANSPARENT, depth=16):
     proj = []
     cur = op
     d = None
+    pending = None
     for _ in range(depth):
-        d = body.origin(cur)
-        proj = d.get("proj", []) + proj
+        if pending is not None:
+            d = body.origin(cur, pending=pending)
+            proj = d.get("proj", [])
+            pending = None
+        else:
+            d = body.origin(cur)
+            proj = d.get("proj", []) + proj
         if d["k"] == "call":
             f = d["t"].get("f")
             if f is not None and d["t"]["args"]:
@@ -226,6 +239,9 @@ def origin_thru(body, op, transparent=TRANSPARENT, depth=16):
                 if any(k in transparent for k in ks):
                     chain.append(ks[0])
                     cur = d["t"]["args"][0]
+                    if body.d.get("inl_rets") and "std::ops::Try::branch" in ks and proj and isinstance(proj[0], dict) and proj[0].get("as") == "Continue":
+                        # `?` applied to the result of a virtually inlined helper: look for the Ok(..)/Some(..) it returned
+                        pending = proj
                     continue
         break
     d = dict(d)
